@@ -163,11 +163,13 @@ void mp_powm(integer_class &res, const integer_class &base,
         res = boost::multiprecision::powm(base_inverse, mp_abs(exp), m);
         return;
     } else {
-        res = boost::multiprecision::powm(base, exp, m);
+        // the sign of the modulus is ignored (as mpz_powm does)
+        const integer_class abs_m = mp_abs(m);
+        res = boost::multiprecision::powm(base, exp, abs_m);
         // boost's powm calculates base**exp % m, but uses truncated
         // modulus, e.g. powm(-2,3,5) == -3.  We want powm(-2,3,5) == 2
         if (res < 0) {
-            res += m;
+            res += abs_m;
         }
     }
 }
